@@ -83,3 +83,24 @@ Theorem C02_source_ties :
   (forall mx, auto_width_src mx = Z.of_nat (auto_width_fixed mx)).
 Proof. exact (conj codeword_length_tie (conj one_shifted_tie (conj mask_with_high_zeros_tie auto_width_tie))). Qed.
 Print Assumptions C02_source_ties.
+
+From V Require Import Base Tensor Graph GraphProofs GraphImpl Hash Matrix MatrixProofs Def Paths BfsStep Bfs BfsRun BfsProofs PathsProofs Mitm MitmProofs PathRun MitmFind InstShared InstMatrix InstMatrixAlgebra InstMatrixBfs.
+
+(* applying a path of matrix generators equals applying their product: (A*B)S = A(B S), both arithmetic modes (2 <= m <= 2^31 exact residues; m = 0 wrap to int64) *)
+Theorem C02_mat_apply_mul :
+  forall (modulo : Z) (n m : nat) (A B : list (list Z)) (S : state),
+         ModOk modulo n ->
+         MatOk modulo n A ->
+         MatOk modulo n B ->
+         UmatP modulo n m S ->
+         mat_apply modulo n m (mat_mul modulo n A B) S =
+         mat_apply modulo n m A (mat_apply modulo n m B S).
+Proof. exact @mat_apply_mul. Qed.
+Print Assumptions C02_mat_apply_mul.
+
+(* the identity matrix acts trivially on reduced states *)
+Theorem C02_mat_apply_eye :
+  forall (modulo : Z) (n m : nat) (S : state),
+         ModOk modulo n -> UmatP modulo n m S -> mat_apply modulo n m (eye n) S = S.
+Proof. exact @mat_apply_eye. Qed.
+Print Assumptions C02_mat_apply_eye.
